@@ -211,6 +211,13 @@ pub fn fam_timeouts(b: &Base, silence: bool, out: &mut Vec<CaseSpec>) {
     }
 }
 
+/// one call of the socket's `send` fails (nothing is transmitted): at every position of the fault-free run
+pub fn fam_send_fail(b: &Base, out: &mut Vec<CaseSpec>) {
+    for idx in 0..(b.n_w2p + 1).min(40) {
+        out.push(with(b, "sendfail", format!("#{idx}"), |s| s.rules.push(Rule::SendFail { idx })));
+    }
+}
+
 /// degenerate file contents (all zero, sparse with holes, all 0xFF, text): fault-free, and with `faults` every single
 /// drop on top
 pub fn fam_content(b: &Base, faults: bool, out: &mut Vec<CaseSpec>) {
